@@ -117,16 +117,32 @@ pub fn check(c: &Case) -> CheckResult {
             o.class("kind:fill_rect");
         }
         Kind::Clear { color } => {
-            let mut a = fresh();
+            // (clear is not positioned by the current transform: in two cases of three one is set, the same on
+            // every route)
+            let t = match (c.w * 5 + c.h * 3 + (*color >> 24) as i32) % 6 {
+                0 => Some(Transform::translation(3.0, 2.0)),
+                1 => Some(Transform::scale(0.5, 0.5)),
+                2 => Some(Transform::new(0.0, 1.0, -1.0, 0.0, 1.5, 0.25)),
+                3 => Some(Transform::new(2.0, 0.0, 0.0, 0.0, 0.0, 0.0)),
+                _ => None,
+            };
+            let with_t = |mut d: DrawTarget| {
+                if let Some(t) = &t {
+                    d.set_transform(t);
+                }
+                d
+            };
+            let mut a = with_t(fresh());
             a.clear(solid_of(*color));
-            let mut b = fresh();
+            let mut b = with_t(fresh());
             b.push_clip_rect(irect(0, 0, c.w, c.h));
             b.clear(solid_of(*color));
             b.pop_clip();
-            let mut d = fresh();
+            let mut d = with_t(fresh());
             d.push_clip_rect(irect(-3, -7, c.w + 2, c.h + 9));
             d.clear(solid_of(*color));
             d.pop_clip();
+            o.class_if(t.is_some(), "clear-under-a-transform");
             if let Some(m) = diff(a.get_data(), b.get_data(), c.w) {
                 return Err(format!("clear(c) with empty clip stack differs from clear(c) under a surface-covering clip: {}", m));
             }
@@ -205,7 +221,7 @@ pub fn property(ctx: &Ctx) -> Property {
     let c = ctx.clone();
     Property {
         id: "C14",
-        rule: "cases: integer rectangles (origin in [-4,w+4], sizes in [-3,w+6] incl. zero and negative; one axis in ten with an edge 1000..4000 px off the surface) on 1..12 px surfaces (one in twenty-five 257..330 px long or tall, with images up to 300 px wide; one in fifty 1023..4097 px long or tall, at and next to powers of two) with random non-empty premultiplied contents, all 28 blend modes, solid/image/gradient sources, alpha in [0,1], AA and aliased; plus clear(c) and draw_image_at at integer positions. Oracle: bit-exact differential between four routes (fill_rect fast path; fill(PathBuilder::rect); fill_rect under a surface-covering clip rect; under a larger clip rect), one case in eight with all routes running inside a layer that was pushed under a small clip rectangle popped again before the draw (layer narrower than the surface, clip stack empty); clear under clip vs not; draw_image_at vs fill with translated image. Non-trivial: rectangle covers part but not all of the surface and (mode != SrcOver or source not an opaque solid at alpha 1); distinct by hash of the case.",
+        rule: "cases: integer rectangles (origin in [-4,w+4], sizes in [-3,w+6] incl. zero and negative; one axis in ten with an edge 1000..4000 px off the surface) on 1..12 px surfaces (one in twenty-five 257..330 px long or tall, with images up to 300 px wide; one in fifty 1023..4097 px long or tall, at and next to powers of two) with random non-empty premultiplied contents, all 28 blend modes, solid/image/gradient sources, alpha in [0,1], AA and aliased; plus clear(c) (two thirds of them with a translation, scale, quarter turn or singular transform set, the same on every route) and draw_image_at at integer positions. Oracle: bit-exact differential between four routes (fill_rect fast path; fill(PathBuilder::rect); fill_rect under a surface-covering clip rect; under a larger clip rect), one case in eight with all routes running inside a layer that was pushed under a small clip rectangle popped again before the draw (layer narrower than the surface, clip stack empty); clear under clip vs not; draw_image_at vs fill with translated image. Non-trivial: rectangle covers part but not all of the surface and (mode != SrcOver or source not an opaque solid at alpha 1); distinct by hash of the case.",
         assumptions: vec!["the general route (rasterised rectangle + mask blitters) is itself judged by C01/C02/C03"],
         parts: vec![part("routes", 250_000, 4_000_000, move || strategy(&c), check)],
         min_class_fraction: vec![("routes", "rect-partly-covers-surface", 0.3), ("routes", "non-srcover", 0.5), ("routes", "negative-size", 0.05), ("routes", "rect-off-surface", 0.2), ("routes", "span-beyond-256-with-varying-source", 0.001), ("routes", "inside-narrow-layer-with-empty-clip-stack", 0.05)],
